@@ -129,6 +129,11 @@ func (d *PathDecoder) candidatesFromHooks(ctx context.Context, attr *hclsyntax.A
 		// Since text edits only support a single line, we're resetting the End
 		// position here.
 		editRng.End = pos
+		if pos.Byte < editRng.Start.Byte {
+			// the cursor stands in front of the place the parser gave
+			// the missing expression (e.g. a comment follows the cursor)
+			editRng.Start = pos
+		}
 	}
 	prefixRng := attr.Expr.Range()
 	prefixRng.End = pos
